@@ -254,9 +254,11 @@ def make_case(eng: core.Engine, prim: str, shp: tuple) -> typing.Tuple[Case, typ
 
         def spec(st, r, c=c, n=n, o=o, l=l):
             fin = c.final(st, "buf")
+            if l == 0:      # nothing is addressed: nothing may change; success and too-small (cursor past the end) are both acceptable
+                return z3.And(z3.Or(_retv(r, 8) == 0, _retv(r, 8) == TOO_SMALL), _same(fin, c.init["buf"]))
             if o + l > 8 * n:
                 return z3.And(_retv(r, 8) == TOO_SMALL, _same(fin, c.init["buf"]))
-            if n == 0 or l == 0:
+            if n == 0:
                 return z3.And(_retv(r, 8) == 0, _same(fin, c.init["buf"]))
             W = 8 * n
             old, got = bits_le(c.init["buf"], W), bits_le(fin, W)
